@@ -296,6 +296,22 @@ RENAMES = [
      "    pub(super) async fn execute<S: StateWrite>(&self, mut state: S) -> Result<()> {",
      "impl AssetTransfer for CheckedTransfer",
      [("state", "delta")]),
+    ("C09-rename-accumulator", "tally variable of ensure_commit_has_quorum renamed",
+     CD + "celestia/block_verifier.rs",
+     "pub(super) fn ensure_commit_has_quorum(", "fn does_commit_voting_power_have_quorum(",
+     [("            commit_voting_power,\n", "            commit_voting_power: tally,\n"),
+      ("            total_voting_power,\n", "            total_voting_power: all_power,\n"),
+      ("commit_voting_power", "tally"), ("total_voting_power", "all_power"),
+      ("tally: tally", "commit_voting_power: tally"), ("all_power: all_power", "total_voting_power: all_power")]),
+    ("C15-rename-accumulators", "accumulators of validate_vote_extensions renamed",
+     SQ + "app/vote_extension.rs",
+     "async fn validate_vote_extensions<S: StateReadExt>(", "fn validate_extended_commit_against_last_commit(",
+     [("submitted_voting_power", "submitted"), ("total_voting_power", "total"),
+      ("validators_that_voted", "seen")]),
+    ("C08-rename-loop-variables", "loop variables of audit_path_len renamed",
+     MK + "lib.rs",
+     "fn audit_path_len(leaf_index: usize, tree_size: usize) -> Option<usize> {", "fn is_tree_index_in_tree(",
+     [("len", "steps"), ("root", "top")]),
     ("C15-rename-parameter", "parameters of validate_extended_commit_against_last_commit renamed",
      SQ + "app/vote_extension.rs",
      "fn validate_extended_commit_against_last_commit(", "    Ok(())\n}\n",
